@@ -144,6 +144,28 @@ impl Prop for C03 {
     }
     fn make(&self, seed: u64, run: u64, tier: Tier) -> Case {
         let mut rng = Rng::derive(seed, "C03", run, "gen");
+        if run == 0 {
+            // pinned reproduction of the known finding 'authentic prefix on a chunk edge' (found by the thorough tier,
+            // seed 1 run 7971): with the last chunk dropped, the tail of the remaining plaintext - part of the real index -
+            // parses as a shorter index that lists a file named ""
+            let cfg = ArcCfg { variant: "s0".into(), layers: L_ENC, level: 5, recipients: 1, reader: 0, rng_seed: 7831561764402447833, key_seed: 11754808906616812324 };
+            let ex = Src::exact;
+            let ops = vec![
+                WOp::Start { f: 0, name: Name::lit("0 with space") },
+                WOp::End { f: 0 },
+                WOp::Start { f: 1, name: Name::lit("ünï-çødé-1-файл") },
+                WOp::Start { f: 2, name: Name::lit("f2") },
+                WOp::Append { f: 1, data: Data::Zeros { n: 47 }, src: ex() },
+                WOp::Append { f: 1, data: Data::Zeros { n: 24 }, src: ex() },
+                WOp::End { f: 2 },
+                WOp::End { f: 1 },
+                WOp::Finalize,
+            ];
+            let mut case = Case::new("C03", cfg, ops);
+            case.faults = vec![Fault::ChunkDel { i: 15 }];
+            case.params.insert("hist_seed".into(), 3909571891976824333);
+            return case;
+        }
         let x = rng.below(100);
         let variant = match tier {
             Tier::Quick => match x {
@@ -262,6 +284,10 @@ impl Prop for C03 {
                 continue;
             }
             seams::fired(fault_kind(f));
+            // an AUTHENTIC PREFIX ending on a chunk edge (last chunks dropped): every remaining chunk verifies and format
+            // v1 has no authenticated end, so the reader cannot tell it from a complete stream (known finding, DESIGN 12)
+            let on_edge = altered.len() >= hlen && altered.len() < image.len() && image.starts_with(&altered) && (altered.len() - hlen) % (chunk + 16) == 0;
+            let fk: String = if on_edge { format!("authentic-prefix-on-chunk-edge|{}", fault_kind(f)) } else { fault_kind(f).to_string() };
             let out = s.read(Rc::new(altered), &rcfg, &rops);
             ctx.eval();
             let region = match f {
@@ -286,7 +312,7 @@ impl Prop for C03 {
                         (ROp::List, RRes::Names(ns)) => {
                             for n in ns {
                                 if !model.files.contains_key(n) {
-                                    v.push(Violation::new("altered-lists-foreign-name", fault_kind(f), format!("{f:?}: listing contains {:?}, not an original name", n.chars().take(20).collect::<String>())).with_fault(f.clone()));
+                                    v.push(Violation::new("altered-lists-foreign-name", fk.clone(), format!("{f:?}: listing contains {:?}, not an original name", n.chars().take(20).collect::<String>())).with_fault(f.clone()));
                                 }
                             }
                         }
@@ -302,7 +328,7 @@ impl Prop for C03 {
                                 let orig = &model.files[*name];
                                 let end = (*pos + b.len()).min(orig.len());
                                 if *pos + b.len() > orig.len() || orig[*pos..end] != b[..] {
-                                    v.push(Violation::new("altered-wrong-bytes", fault_kind(f), format!("{f:?} ({region}): read of file {:?} at {} returned {} bytes that differ from the original", name.chars().take(16).collect::<String>(), pos, b.len())).with_fault(f.clone()));
+                                    v.push(Violation::new("altered-wrong-bytes", fk.clone(), format!("{f:?} ({region}): read of file {:?} at {} returned {} bytes that differ from the original", name.chars().take(16).collect::<String>(), pos, b.len())).with_fault(f.clone()));
                                 }
                                 *pos += b.len();
                             }
@@ -312,7 +338,7 @@ impl Prop for C03 {
                                 let orig = &model.files[*name];
                                 if *pos > orig.len() || orig[*pos..] != b[..] {
                                     let kind = if orig[(*pos).min(orig.len())..].starts_with(b) { "altered-silent-shortening" } else { "altered-wrong-bytes" };
-                                    v.push(Violation::new(kind, fault_kind(f), format!("{f:?} ({region}): reading file {:?} from {} to its end returned Ok with {} bytes, the original has {} left", name.chars().take(16).collect::<String>(), pos, b.len(), orig.len().saturating_sub(*pos))).with_fault(f.clone()));
+                                    v.push(Violation::new(kind, fk.clone(), format!("{f:?} ({region}): reading file {:?} from {} to its end returned Ok with {} bytes, the original has {} left", name.chars().take(16).collect::<String>(), pos, b.len(), orig.len().saturating_sub(*pos))).with_fault(f.clone()));
                                 }
                                 *pos = orig.len();
                             }
